@@ -161,10 +161,11 @@ func (p *PacketConn) SetReadDeadline(t time.Time) error  { return nil }
 func (p *PacketConn) SetWriteDeadline(t time.Time) error { return nil }
 
 // Registry of named endpoints reachable through Caddy network addresses:
-//   verif/<name>:1        -> *Listener (scripted)
-//   verifudp/<name>:1     -> *PacketConn (scripted)
-//   veriftcp/<name>:1     -> real loopback TCP listener (address recorded)
-//   verifrealudp/<name>:1 -> real loopback UDP socket (address recorded)
+//
+//	verif/<name>:1        -> *Listener (scripted)
+//	verifudp/<name>:1     -> *PacketConn (scripted)
+//	veriftcp/<name>:1     -> real loopback TCP listener (address recorded)
+//	verifrealudp/<name>:1 -> real loopback UDP socket (address recorded)
 var (
 	regMu     sync.Mutex
 	listeners = map[string]*Listener{}
